@@ -33,7 +33,8 @@ from checks import c01_parse_total as c01  # noqa: E402
 from gens import soup  # noqa: E402
 from refs import tree as rtree  # noqa: E402
 
-ALPHABET = (soup.STRUCT + soup.TEXT + soup.TAGS + soup.COMPOSITE
+ALPHABET = (soup.STRUCT + soup.TEXT + soup.TAGS + soup.TAG_VARIANTS
+            + soup.COMPOSITE
             + soup.MAGIC_WORDS + ["<span" + a + ">" for a in soup.ATTRS])
 OUT = sys.argv[1]
 CTX = c01.make_ctx()
